@@ -138,6 +138,9 @@ def level : Geom → Nat
 def isAtom : Geom → Bool
   | surf _ => true | paren .. => true | _ => false
 
+def isCompl : Geom → Bool
+  | compl _ => true | _ => false
+
 def startsParen : Geom → Bool
   | paren .. => true | inter l _ _ => l.startsParen | union l _ _ _ => l.startsParen | _ => false
 
@@ -152,7 +155,7 @@ def WF : Geom → Bool
   | compl e => e.isAtom && e.WF
   | inter l gap r =>
       l.WF && r.WF && decide (l.level ≤ 1) && decide (r.level = 0) && gap.ok &&
-      (!gap.isEmpty || (r.isAtom && (l.endsParen || r.startsParen)))
+      (!gap.isEmpty || (r.isAtom && (l.endsParen || r.startsParen)) || (r.isCompl && l.endsParen))
   | union l g1 g2 r => l.WF && r.WF && decide (r.level ≤ 1) && g1.ok && g2.ok
 
 def render : Geom → List String
@@ -290,9 +293,9 @@ inductive PVal
   /-- one or more entries: `IMP:N=1`, `U=-2`, `FILL=3`, `TRCL=5` … -/
   | nums (es : Entries)
   /-- `FILL = UnivNo "(" … ")" gap` -/
-  | numsParen (es : Entries) (inner : Entries) (after : Gap)
+  | numsParen (es : Entries) (opened : Gap) (inner : Entries) (after : Gap)
   /-- `TRCL = "(" … ")" gap` -/
-  | paren (inner : Entries) (after : Gap)
+  | paren (opened : Gap) (inner : Entries) (after : Gap)
   /-- `FILL = i:j k:l m:n UnivNo+`: three ranges (each `Int ":" Int gap`), then the universes -/
   | lattice (r1a : Num) (r1b : Num) (g1 : Gap) (r2a : Num) (r2b : Num) (g2 : Gap) (r3a : Num) (r3b : Num) (g3 : Gap)
       (us : Entries)
@@ -301,25 +304,25 @@ inductive PVal
 namespace PVal
 def WF : PVal → Bool
   | nums es => es.WF && !es.isEmpty
-  | numsParen es inner after => es.WF && !es.isEmpty && inner.WF && !inner.isEmpty && after.ok
-  | paren inner after => inner.WF && !inner.isEmpty && after.ok
+  | numsParen es opened inner after => es.WF && !es.isEmpty && opened.ok && inner.WF && !inner.isEmpty && after.ok
+  | paren opened inner after => opened.ok && inner.WF && !inner.isEmpty && after.ok
   | lattice _ _ g1 _ _ g2 _ _ g3 us => g1.req && g2.req && g3.req && us.WF && !us.isEmpty
 def render : PVal → List String
   | nums es => es.render
-  | numsParen es inner _ => es.render ++ ["("] ++ inner.render ++ [")"]
-  | paren inner _ => ["("] ++ inner.render ++ [")"]
+  | numsParen es _ inner _ => es.render ++ ["("] ++ inner.render ++ [")"]
+  | paren _ inner _ => ["("] ++ inner.render ++ [")"]
   | lattice a b _ c d _ e f _ us =>
       [a.text, ":", b.text, c.text, ":", d.text, e.text, ":", f.text] ++ us.render
 def classes : PVal → List String
   | nums es => es.classes
-  | numsParen es inner after => es.classes ++ ["("] ++ inner.classes ++ [")"] ++ after.cls
-  | paren inner after => ["("] ++ inner.classes ++ [")"] ++ after.cls
+  | numsParen es opened inner after => es.classes ++ ["("] ++ opened.cls ++ inner.classes ++ [")"] ++ after.cls
+  | paren opened inner after => ["("] ++ opened.cls ++ inner.classes ++ [")"] ++ after.cls
   | lattice a b g1 c d g2 e f g3 us =>
       [a.cls, ":", b.cls] ++ g1.cls ++ [c.cls, ":", d.cls] ++ g2.cls ++ [e.cls, ":", f.cls] ++ g3.cls ++ us.classes
 def interpEndNonzero : PVal → Bool
   | nums es => es.interpEndNonzero
-  | numsParen es inner _ => es.interpEndNonzero && inner.interpEndNonzero
-  | paren inner _ => inner.interpEndNonzero
+  | numsParen es _ inner _ => es.interpEndNonzero && inner.interpEndNonzero
+  | paren _ inner _ => inner.interpEndNonzero
   | lattice _ _ _ _ _ _ _ _ _ us => us.interpEndNonzero
 end PVal
 
@@ -472,6 +475,9 @@ example : (Geom.union (.inter (.surf "1") [.space] (.surf "-2")) [] [] (.compl (
     = ["1", "-2", ":", "#", "(", "3", ")"] := by decide
 example : (Geom.inter (.paren [] (.union (.surf "1") [] [] (.surf "2")) []) [] (.paren [] (.surf "3") [])).WF = true := by
   decide
+/-- `(1:2)#3`: a parenthesis separates, no blank needed; `1#3` needs one -/
+example : (Geom.inter (.paren [] (.union (.surf "1") [] [] (.surf "2")) []) [] (.compl (.surf "3"))).WF = true := by decide
+example : (Geom.inter (.surf "1") [] (.compl (.surf "3"))).WF = false := by decide
 /-- `1 -2` without the blank is not a sentence -/
 example : (Geom.inter (.surf "1") [] (.surf "-2")).WF = false := by decide
 /-- an intersection under a union needs no parentheses, a union under an intersection does -/
